@@ -20,7 +20,7 @@ func (w *World) NewFnCtx(key string) (*FnCtx, error) {
 		return nil, fmt.Errorf("contract-not-applicable: no function %q in the loaded packages", key)
 	}
 	fc := &FnCtx{w: w, fn: fn, key: key, vals: map[ssa.Value]Val{}, outs: map[*ssa.BasicBlock][]edgeOut{},
-		modPreds: map[string][]modPred{}, kindCnt: map[string]int{}, paramEV: map[string]EV{}, loops: map[*ssa.BasicBlock]*loopInfo{}}
+		modPreds: map[string][]modPred{}, kindCnt: map[string]int{}, paramEV: map[string]EV{}, loops: map[*ssa.BasicBlock]*loopInfo{}, blockIns: map[*ssa.BasicBlock][]Term{}, blockVias: map[*ssa.BasicBlock][]string{}}
 	if fn.Pkg != nil {
 		fc.pkg = fn.Pkg.Pkg
 	} else if fn.Parent() != nil {
@@ -286,6 +286,17 @@ func (fc *FnCtx) loopLookup(st *State, li *loopInfo) func(string) (EV, bool) {
 	}
 	base := fc.localLookup(st, at)
 	return func(name string) (EV, bool) {
+		if name == "$n" && li.iterID != "" {
+			// length of the string being ranged over
+			for _, in := range li.head.Instrs {
+				if n, ok := in.(*ssa.Next); ok {
+					if it, ok := fc.vals[n.Iter].(IterVal); ok {
+						return EV{app("slen", it.s), SInt, types.Typ[types.Int]}, true
+					}
+				}
+			}
+			return EV{}, false
+		}
 		if strings.HasPrefix(name, "$i") {
 			target := li
 			if len(name) > 2 {
@@ -321,7 +332,16 @@ func (fc *FnCtx) loopLookup(st *State, li *loopInfo) func(string) (EV, bool) {
 }
 
 func (fc *FnCtx) loopEnv(st *State, li *loopInfo) *Env {
-	return fc.envAt(st, fc.entryEnv(), fc.loopLookup(st, li))
+	e := fc.envAt(st, fc.entryEnv(), fc.loopLookup(st, li))
+	e.allocL = li.allocIn
+	if li.inState != nil && st != li.inState {
+		pe := fc.envAt(li.inState, fc.entryEnv(), fc.loopLookup(li.inState, li))
+		pe.allocL = li.allocIn
+		e.preEnv = pe
+	} else {
+		e.preEnv = e
+	}
+	return e
 }
 
 // loopWrites: statically, which state components may change in the loop body.
@@ -505,8 +525,8 @@ func (fc *FnCtx) loopHead(li *loopInfo, in *State, inReach Term) {
 func (fc *FnCtx) allInvariants(li *loopInfo) []*Clause {
 	var out []*Clause
 	if li.iterID != "" {
-		e, _ := ParseExpr("0 <= $i")
-		out = append(out, &Clause{Kind: "invariant", Expr: e, Text: "0 <= $i (automatic)"})
+		e, _ := ParseExpr("0 <= $i && $i <= $n")
+		out = append(out, &Clause{Kind: "invariant", Expr: e, Text: "0 <= $i <= len (automatic)"})
 	}
 	out = append(out, li.lc.Invariants...)
 	return out
@@ -526,18 +546,69 @@ func (fc *FnCtx) obligeNoAssume(kind string, goal Term, text string, tags []stri
 	_ = n
 }
 
+// splitConds: the in-edge conditions of the nearest multi-predecessor block reached by walking up single-predecessor
+// chains from b. Proving a goal once per incoming edge (with that edge assumed taken) keeps each query small: the merged
+// state constants collapse to the values of one path.
+func (fc *FnCtx) splitConds(b *ssa.BasicBlock) []Term {
+	for i := 0; i < 8 && b != nil; i++ {
+		if cs := fc.blockIns[b]; len(cs) > 3 {
+			fc.lastVias = fc.blockVias[b]
+			return cs
+		}
+		var np *ssa.BasicBlock
+		n := 0
+		for _, p := range b.Preds {
+			if !fc.isBackEdge(p, b) {
+				np = p
+				n++
+			}
+		}
+		if n != 1 {
+			return nil
+		}
+		if _, isLoop := fc.loops[b]; isLoop {
+			return nil
+		}
+		b = np
+	}
+	return nil
+}
+
+// obligeSplit emits one obligation per split condition (or a single one when there is nothing to split).
+func (fc *FnCtx) obligeSplit(b *ssa.BasicBlock, kind string, goal Term, text string, tags []string, label string) {
+	cs := fc.splitConds(b)
+	if len(cs) == 0 {
+		fc.oblige(kind, goal, text, tags, label)
+		return
+	}
+	saveR := fc.reach
+	for i, c := range cs {
+		fc.reach = and(saveR, c)
+		fc.obligeNoAssumeRaw(kind, goal, text, tags, label)
+		if len(fc.obls) > 0 && i < len(fc.lastVias) {
+			fc.obls[len(fc.obls)-1].Via = fc.lastVias[i]
+		}
+	}
+	fc.reach = saveR
+	fc.assume(goal)
+}
+
 func (fc *FnCtx) backEdge(li *loopInfo, st *State, cond Term) {
 	save, saveR := fc.st, fc.reach
 	fc.st = st.clone()
 	fc.reach = cond
 	env := fc.loopEnv(fc.st, li)
+	var from *ssa.BasicBlock
+	if fc.curInstr != nil {
+		from = fc.curInstr.Block()
+	}
 	for _, inv := range fc.allInvariants(li) {
 		t, err := env.EvalBool(inv.Expr)
 		if err != nil {
 			panic(evalErr(fmt.Sprintf("%s:%d: loop %d invariant: %v", inv.File, inv.Line, li.ordinal, err)))
 		}
 		tags := append([]string{"C02"}, inv.Tags...)
-		fc.oblige("inv-pres", t, fmt.Sprintf("loop %d invariant preserved: %s", li.ordinal, inv.Text), tags, inv.Label)
+		fc.obligeSplit(from, "inv-pres", t, fmt.Sprintf("loop %d invariant preserved: %s", li.ordinal, inv.Text), tags, inv.Label)
 	}
 	// termination
 	ves := fc.variantExprs(li)
@@ -769,6 +840,23 @@ func (fc *FnCtx) block(b *ssa.BasicBlock) {
 		}
 		st, r := fc.merge(b, ins)
 		fc.st, fc.reach = st, r
+		var cs []Term
+		var vias []string
+		for _, e := range ins {
+			cs = append(cs, e.cond)
+			via := ""
+			if e.from != nil {
+				for i := len(e.from.Instrs) - 1; i >= 0; i-- {
+					if p := e.from.Instrs[i].Pos(); p.IsValid() {
+						via = fmt.Sprintf("via %s:%d", shortFile(fc.w.fset.Position(p).Filename), fc.w.fset.Position(p).Line)
+						break
+					}
+				}
+			}
+			vias = append(vias, via)
+		}
+		fc.blockIns[b] = cs
+		fc.blockVias[b] = vias
 	}
 	if li, ok := fc.loops[b]; ok {
 		fc.loopHead(li, fc.st, fc.reach)
@@ -785,10 +873,10 @@ func (fc *FnCtx) block(b *ssa.BasicBlock) {
 	switch t := last.(type) {
 	case *ssa.If:
 		c := fc.term(t.Cond)
-		outs = append(outs, edgeOut{to: b.Succs[0], cond: and(fc.reach, c), st: fc.st})
-		outs = append(outs, edgeOut{to: b.Succs[1], cond: and(fc.reach, not(c)), st: fc.st})
+		outs = append(outs, edgeOut{to: b.Succs[0], cond: and(fc.reach, c), st: fc.st, from: b})
+		outs = append(outs, edgeOut{to: b.Succs[1], cond: and(fc.reach, not(c)), st: fc.st, from: b})
 	case *ssa.Jump:
-		outs = append(outs, edgeOut{to: b.Succs[0], cond: fc.reach, st: fc.st})
+		outs = append(outs, edgeOut{to: b.Succs[0], cond: fc.reach, st: fc.st, from: b})
 	case *ssa.Return:
 		fc.doReturn(t)
 	case *ssa.Panic:
@@ -862,7 +950,7 @@ func (fc *FnCtx) doReturn(r *ssa.Return) {
 		if err != nil {
 			panic(evalErr(fmt.Sprintf("%s:%d: %v", e.File, e.Line, err)))
 		}
-		fc.oblige("post", t, "ensures "+e.Text, e.Tags, e.Label)
+		fc.obligeSplit(r.Block(), "post", t, "ensures "+e.Text, e.Tags, e.Label)
 	}
 	if fc.isInit {
 		for _, g := range fc.w.cs.Globals {
